@@ -1208,6 +1208,17 @@ Proof. intros A. induction R as [|p R IH]; intros ND HN; cbn; auto.
   assert (x = o') by (apply (amo_unique (cycle_at c (fst p)) (snd p') x o' Ham Hx Ho' T' To')). subst.
   assert (p = p') by (destruct p, p'; cbn in *; congruence). subst. exact Hp'. Qed.
 
+(* the circuit batch_pop returns: the popped operations (as listed by the model, cycle after
+   cycle) on the used qudits, renumbered 0.. in increasing order *)
+Definition bp_ops (c : circuit) (pts : list (Z * Z)) : list op :=
+  let npts := map (fun p => (normZ (fst p) (ncyc c), normZ (snd p) (nq c))) pts in
+  let ids := dedup_pts (flat_map (fun p => match get_cell c (fst p) (snd p) with
+                                           | Some o => [(fst p, hd0 (o_loc o))] | None => [] end) npts) in
+  let cops := fold_right ins_pt [] (flat_map (fun p => match get_cell c (fst p) (snd p) with
+                                           | Some o => [(fst p, o)] | None => [] end) ids) in
+  flat_map (fun i => fwd_cycle (map snd (filter (fun p => Nat.eqb (fst p) i) cops))) (seq 0 (ncyc c)).
+
+
 Section BatchPop.
 Variable c : circuit.
 Hypothesis HI : Inv c.
@@ -1286,6 +1297,76 @@ Proof. intros Hr Hne. unfold batch_pop. rewrite Hr. cbn [negb]. fold npts. fold 
   - eapply Forall_impl; [|apply R_named]. cbn. intros p (o & H1 & H2 & _). eauto.
   - apply nodup_distinct; [apply Inv_Forall_amo; exact HI| |apply R_named].
     eapply Permutation_NoDup; [apply Permutation_sym; apply R_perm|]. apply dedup_NoDup. Qed.
+(* ---- the returned circuit lists exactly the removed operations, cycle after cycle ------------ *)
+Let L2 := flat_map look2 ids.
+
+Lemma L2_spec i o : In (i, o) L2 <-> In o (cycle_at c i) /\ hit npts i o = true.
+Proof. unfold L2. rewrite in_flat_map. split.
+  - intros (id & Hid & Hl). destruct (id_look2 id Hid) as (o' & El & Er & Ho & To). rewrite El in Hl.
+    destruct Hl as [E|[]]. inversion E; subst. split; auto. rewrite <- R_hit by exact Ho.
+    unfold hit. apply existsb_exists. exists id. split; [eapply Permutation_in; [apply Permutation_sym; apply R_perm|exact Hid]|].
+    rewrite Nat.eqb_refl, To. reflexivity.
+  - intros [Ho Hh]. rewrite <- R_hit in Hh by exact Ho. apply hit_true in Hh as (p & Hp & Ei & Tp).
+    eapply Permutation_in in Hp; [|apply R_perm]. exists p. split; auto.
+    destruct (id_look2 p Hp) as (o' & El & Er & Ho' & To'). rewrite El. left. rewrite Ei in *.
+    assert (o' = o) by (apply (amo_unique (cycle_at c i) (snd p) o' o (Inv_amo c i HI) Ho' Ho To' Tp)). subst. reflexivity. Qed.
+
+Lemma L2_nodup : NoDup L2.
+Proof. apply (NoDup_map_inv req_of). unfold L2. rewrite map_req_look2; auto. apply dedup_NoDup. Qed.
+
+Lemma cops_spec i o : In (i, o) cops <-> In o (cycle_at c i) /\ hit npts i o = true.
+Proof. rewrite <- L2_spec. unfold cops. fold L2. split; intros H.
+  - eapply Permutation_in; [apply sort_pt_perm|exact H].
+  - eapply Permutation_in; [apply Permutation_sym; apply sort_pt_perm|exact H]. Qed.
+
+Lemma cops_nodup : NoDup cops.
+Proof. eapply Permutation_NoDup; [apply Permutation_sym; apply sort_pt_perm|]. apply L2_nodup. Qed.
+
+Definition Lcyc (i : nat) : list op := map snd (filter (fun p => Nat.eqb (fst p) i) cops).
+
+Lemma Lcyc_spec i o : In o (Lcyc i) <-> In o (cycle_at c i) /\ hit npts i o = true.
+Proof. unfold Lcyc. rewrite in_map_iff. rewrite <- cops_spec. split.
+  - intros ([i' o'] & E & H). cbn in E. subst o'. apply filter_In in H as [H E]. cbn in E. apply Nat.eqb_eq in E. subst. exact H.
+  - intros H. exists (i, o). split; auto. apply filter_In. split; auto. cbn. apply Nat.eqb_refl. Qed.
+
+Lemma Lcyc_nodup i : NoDup (Lcyc i).
+Proof. unfold Lcyc. assert (G : forall l : list (nat * op), NoDup l -> (forall p, In p l -> fst p = i) -> NoDup (map snd l)).
+  { induction l as [|p l IH]; intros ND Hf; cbn; [constructor|]. inversion ND; subst. constructor.
+    - intros Hin. apply in_map_iff in Hin as (p' & E & Hp'). apply H1.
+      assert (p' = p); [|subst; exact Hp']. pose proof (Hf p' (or_intror Hp')) as F1. pose proof (Hf p (or_introl eq_refl)) as F2.
+      destruct p as [n1 o1], p' as [n2 o2]. cbn in *. congruence.
+    - apply IH; auto. intros; apply Hf; right; assumption. }
+  apply G; [apply NoDup_filter; apply cops_nodup|]. intros p Hp. apply filter_In in Hp as [_ E]. apply Nat.eqb_eq. exact E. Qed.
+
+Lemma nodup_sub_amo (l cy : list op) : NoDup l -> (forall o, In o l -> In o cy) -> amo cy -> amo l.
+Proof. intros ND Hs A q. pose proof (NoDup_filter (touches q) ND) as NF.
+  destruct (filter (touches q) l) as [|x [|y t]] eqn:E; cbn; try lia. exfalso.
+  assert (Hx : In x (filter (touches q) l)) by (rewrite E; left; reflexivity).
+  assert (Hy : In y (filter (touches q) l)) by (rewrite E; right; left; reflexivity).
+  apply filter_In in Hx as [Hx Tx]. apply filter_In in Hy as [Hy Ty].
+  assert (x = y) by (apply (amo_unique cy q x y A (Hs x Hx) (Hs y Hy) Tx Ty)). subst.
+  inversion NF as [|? ? Hn _]; subst. apply Hn. left. reflexivity. Qed.
+
+Lemma short_eq {A} (a b : list A) : length a <= 1 -> length b <= 1 -> (forall x, In x a <-> In x b) -> a = b.
+Proof. intros Ha Hb H. destruct a as [|x [|? ?]], b as [|y [|? ?]]; cbn in *; try lia; auto.
+  - exfalso. apply (H y). left. reflexivity.
+  - exfalso. apply (H x). left. reflexivity.
+  - f_equal. destruct (proj1 (H x) (or_introl eq_refl)) as [E|[]]. auto. Qed.
+
+Lemma Lcyc_tl i q :
+  filter (touches q) (fwd_cycle (Lcyc i)) = filter (touches q) (filter (hit npts i) (cycle_at c i)).
+Proof. pose proof (Inv_amo c i HI) as A.
+  assert (AL : amo (Lcyc i)).
+  { apply (nodup_sub_amo _ (cycle_at c i)); auto; [apply Lcyc_nodup|]. intros o Ho. apply Lcyc_spec in Ho. tauto. }
+  unfold fwd_cycle. rewrite filter_sorted by exact AL.
+  apply short_eq; [apply AL|apply (amo_filter _ _ A)|].
+  intros x. rewrite !filter_In, Lcyc_spec. tauto. Qed.
+
+Lemma bp_ops_tl q :
+  filter (touches q) (bp_ops c pts)
+  = flat_map (fun i => filter (touches q) (filter (hit npts i) (cycle_at c i))) (seq 0 (ncyc c)).
+Proof. unfold bp_ops. fold npts. fold look1. fold ids. fold look2. fold cops.
+  rewrite filter_flat_map. apply flat_map_ext. intros i. apply Lcyc_tl. Qed.
 End BatchPop.
 
 Theorem batch_pop_removed_tl c pts q :
@@ -1302,16 +1383,6 @@ Proof. intros HI Hr (p & o & Hp & Hc) npts. apply batch_pop_tl; auto.
   { apply (ids_spec c pts). exists (normZ (snd p) (nq c)), o. cbn [fst snd]. repeat split; auto.
     unfold npts. apply in_map_iff. exists p. auto. }
   fold npts in E. rewrite E in Hin. destruct Hin. Qed.
-
-(* the circuit batch_pop returns: the popped operations (as listed by the model, cycle after
-   cycle) on the used qudits, renumbered 0.. in increasing order *)
-Definition bp_ops (c : circuit) (pts : list (Z * Z)) : list op :=
-  let npts := map (fun p => (normZ (fst p) (ncyc c), normZ (snd p) (nq c))) pts in
-  let ids := dedup_pts (flat_map (fun p => match get_cell c (fst p) (snd p) with
-                                           | Some o => [(fst p, hd0 (o_loc o))] | None => [] end) npts) in
-  let cops := fold_right ins_pt [] (flat_map (fun p => match get_cell c (fst p) (snd p) with
-                                           | Some o => [(fst p, o)] | None => [] end) ids) in
-  flat_map (fun i => fwd_cycle (map snd (filter (fun p => Nat.eqb (fst p) i) cops))) (seq 0 (ncyc c)).
 
 Lemma index_of_inj l a b : In a l -> In b l -> index_of a l = index_of b l -> a = b.
 Proof. induction l as [|x l IH]; cbn; [tauto|]. intros Ha Hb.
@@ -1348,3 +1419,263 @@ Proof. intros Hs ops qs Hq. revert Hs. unfold batch_pop. destruct (negb _); [dis
     change (index_of q qs) with (g q). apply filter_relab.
     intros o a Ho Ha E. apply (index_of_inj qs); auto.
     apply used_qudits_In. apply in_flat_map. exists o. auto. Qed.
+
+(* both halves together: every used qudit q of the returned circuit shows, renumbered, exactly the
+   operations removed from q's timeline, in cycle order *)
+Theorem batch_pop_returned_tl c pts q sub :
+  Inv c -> snd (batch_pop c pts) = OkC sub ->
+  let npts := map (fun p => (normZ (fst p) (ncyc c), normZ (snd p) (nq c))) pts in
+  let qs := used_qudits (bp_ops c pts) in
+  In q qs ->
+  tl sub (index_of q qs)
+  = map (relab (fun a => index_of a qs))
+        (flat_map (fun i => filter (touches q) (filter (hit npts i) (cycle_at c i))) (seq 0 (ncyc c))).
+Proof. intros HI Hs npts qs Hq. destruct (batch_pop_returned_partial c pts q sub Hs Hq) as [_ T]. fold qs in T.
+  rewrite T. f_equal. apply bp_ops_tl. exact HI. Qed.
+
+(* ---- operations stay on qudits of the circuit (in_range) --------------------------------------------------- *)
+Lemma In_update_at {A} i f (l : list A) d x : In x (update_at i f l) -> x = f (nth i l d) \/ In x l.
+Proof. revert i. induction l as [|y t IH]; intros i H; destruct i; cbn in *; try tauto.
+  - destruct H as [<-|H]; auto.
+  - destruct H as [<-|H]; auto. destruct (IH i H); auto. Qed.
+
+Lemma In_insert_at {A} i (x y : A) l : In y (insert_at i x l) -> y = x \/ In y l.
+Proof. revert i. induction l as [|z t IH]; intros i H; destruct i; cbn in *;
+    try (destruct H as [<-|H]; auto; fail); try tauto.
+  destruct H as [<-|H]; auto. destruct (IH i H); auto. Qed.
+
+Lemma In_remove_at {A} i (y : A) l : In y (remove_at i l) -> In y l.
+Proof. revert i. induction l as [|z t IH]; intros i H; destruct i; cbn in *; auto.
+  destruct H as [<-|H]; auto. right. eapply IH. exact H. Qed.
+
+Definition op_ok (P : nat -> Prop) (o : op) : Prop := forall a, In a (o_loc o) -> P a.
+
+Lemma all_qudits_alt P cs : all_qudits P cs <-> (forall cy o, In cy cs -> In o cy -> op_ok P o).
+Proof. unfold all_qudits, op_ok. split; intros H; intros; eapply H; eauto. Qed.
+
+Lemma aq_app P a b : all_qudits P a -> all_qudits P b -> all_qudits P (a ++ b).
+Proof. intros Ha Hb cy o x Hcy. apply in_app_or in Hcy as [H|H]; [apply (Ha cy o x H)|apply (Hb cy o x H)]. Qed.
+
+Lemma aq_single P o : op_ok P o -> all_qudits P [[o]].
+Proof. intros H cy o' a [<-|[]] [<-|[]] Ha. apply H. exact Ha. Qed.
+
+Lemma aq_place P cs i o : all_qudits P cs -> op_ok P o -> all_qudits P (update_at i (fun cy => cy ++ [o]) cs).
+Proof. intros H Ho cy o' a Hcy Ho' Ha. apply (In_update_at _ _ _ []) in Hcy as [->|Hcy].
+  - apply in_app_or in Ho' as [Ho'|[<-|[]]]; [|apply Ho; exact Ha].
+    destruct (Nat.lt_ge_cases i (length cs)) as [L|L]; [apply (H (nth i cs []) o' a); auto; apply nth_In; exact L|].
+    rewrite nth_overflow in Ho' by exact L. destruct Ho'.
+  - apply (H cy o' a); auto. Qed.
+
+Lemma aq_insert_at P cs i o : all_qudits P cs -> op_ok P o -> all_qudits P (insert_at i [o] cs).
+Proof. intros H Ho cy o' a Hcy Ho' Ha. apply In_insert_at in Hcy as [->|Hcy].
+  - destruct Ho' as [<-|[]]. apply Ho. exact Ha.
+  - apply (H cy o' a); auto. Qed.
+
+Lemma aq_append_raw P c o : all_qudits P (cycles c) -> op_ok P o -> all_qudits P (cycles (fst (append_raw c o))).
+Proof. intros H Ho. unfold append_raw. destruct (Nat.eqb _ _); cbn [fst cycles place].
+  - apply aq_app; auto. apply aq_single. exact Ho.
+  - apply aq_place; auto. Qed.
+
+Lemma valid_op_ok c o : valid_op c o = true -> op_ok (fun a => a < nq c) o.
+Proof. unfold valid_op. intros H a Ha. apply andb_true_iff in H as [H _]. rewrite forallb_forall in H.
+  apply Nat.ltb_lt. apply H. exact Ha. Qed.
+
+Definition inr (n : nat) (c : circuit) : Prop := all_qudits (fun a => a < n) (cycles c).
+Lemma in_range_inr c : in_range c <-> inr (nq c) c.
+Proof. reflexivity. Qed.
+
+Lemma append_inr c o : in_range c -> in_range (fst (append c o)).
+Proof. intros H. unfold in_range. rewrite (proj1 (append_nq c o)). unfold append.
+  destruct (valid_op c o) eqn:V; cbn [negb fst]; auto.
+  pose proof (aq_append_raw (fun a => a < nq c) c o H (valid_op_ok c o V)) as H1. destruct (append_raw c o). exact H1. Qed.
+
+Lemma insert_inr c ci o : in_range c -> in_range (fst (insert c ci o)).
+Proof. intros H. unfold in_range. rewrite (proj1 (insert_nq c ci o)). unfold insert.
+  destruct (valid_op c o) eqn:V; cbn [negb fst]; auto. pose proof (valid_op_ok c o V) as Ho.
+  destruct (Nat.eqb _ 0); cbn [fst]; [apply aq_append_raw; auto|].
+  destruct (negb _ && negb _); cbn [fst]; [apply aq_append_raw; auto|].
+  destruct (unoccupied _ _); cbn [fst cycles place]; [apply aq_place|apply aq_insert_at]; auto. Qed.
+
+Lemma remove_op_inr n c i q : inr n c -> inr n (remove_op c i q).
+Proof. intros H cy o a Hcy Ho Ha. unfold remove_op in Hcy. destruct (filter _ _) as [|x r] eqn:E; cbn [cycles] in Hcy.
+  - apply In_remove_at in Hcy. apply (H cy o a); auto.
+  - apply (In_update_at _ _ _ []) in Hcy as [->|Hcy]; [|apply (H cy o a); auto].
+    rewrite <- E in Ho. apply filter_In in Ho as [Ho _]. unfold cycle_at in Ho.
+    destruct (Nat.lt_ge_cases i (length (cycles c))) as [L|L]; [apply (H (nth i (cycles c) []) o a); auto; apply nth_In; exact L|].
+    rewrite nth_overflow in Ho by exact L. destruct Ho. Qed.
+
+Lemma seq_ops_inr {A} (f : circuit -> A -> res) l :
+  (forall c x, in_range c -> in_range (fst (f c x))) -> forall c, in_range c -> in_range (fst (seq_ops f c l)).
+Proof. intros Hf. induction l as [|x t IH]; intros c H; cbn [seq_ops fst]; auto.
+  specialize (Hf c x H). destruct (f c x) as [c' [| | | |e]]; cbn [fst] in *; auto. Qed.
+
+Lemma pop_inr c pt : in_range c -> in_range (fst (pop c pt)).
+Proof. intros H. unfold pop. destruct pt as [[ci qi]|].
+  - destruct (negb _); cbn [fst]; auto. destruct (get_cell _ _ _); cbn [fst]; auto.
+    unfold in_range. rewrite (proj1 (remove_op_nq _ _ _)). apply remove_op_inr. exact H.
+  - destruct (ncyc c); cbn [fst]; auto. destruct (rev_cycle _); cbn [fst]; auto.
+    unfold in_range. rewrite (proj1 (remove_op_nq _ _ _)). apply remove_op_inr. exact H. Qed.
+
+Lemma append_circuit_inr c sub loc g : in_range c -> in_range (fst (append_circuit c sub loc g)).
+Proof. intros H. unfold append_circuit. destruct (negb _); cbn [fst]; auto. destruct g; [apply append_inr; exact H|].
+  pose proof (seq_ops_inr append (map (map_loc loc) (iter_ops (cycles sub))) (fun c x Hc => append_inr c x Hc) c H) as H1.
+  destruct (seq_ops append c _) as [c' [| | | |e]]; exact H1. Qed.
+
+Lemma insert_circuit_inr c ci sub loc g : in_range c -> in_range (fst (insert_circuit c ci sub loc g)).
+Proof. intros H. unfold insert_circuit. destruct (negb _); cbn [fst]; auto. destruct g; [apply insert_inr; exact H|].
+  destruct (Z.leb _ _).
+  - pose proof (append_circuit_inr c sub loc false H) as H1. destruct (append_circuit c sub loc false) as [c' [| | | |e]]; exact H1.
+  - apply seq_ops_inr; auto. intros; apply insert_inr; assumption. Qed.
+
+Lemma fold_left_inr {A} (f : circuit -> A -> circuit) l :
+  (forall c x, in_range c -> in_range (f c x)) -> forall c, in_range c -> in_range (fold_left f l c).
+Proof. intros Hf. induction l as [|x t IH]; intros c H; cbn; auto. Qed.
+
+Lemma remove_op_in_range c i q : in_range c -> in_range (remove_op c i q).
+Proof. intros H. unfold in_range. rewrite (proj1 (remove_op_nq _ _ _)). apply remove_op_inr. exact H. Qed.
+
+Lemma batch_pop_inr c pts : in_range c -> in_range (fst (batch_pop c pts)).
+Proof. intros H. unfold batch_pop. destruct (negb _); cbn [fst]; auto. destruct (dedup_pts _); cbn [fst]; auto.
+  apply fold_left_inr; auto. intros; apply remove_op_in_range; assumption. Qed.
+
+Lemma replace_inr c pt o : in_range c -> in_range (fst (replace c pt o)).
+Proof. intros H. destruct pt as [ci qi]. unfold replace.
+  destruct (valid_op c o) eqn:Hv; cbn [negb fst]; [|exact H]. pose proof (valid_op_ok c o Hv) as Ho.
+  destruct (point_in_range c ci qi); cbn [negb fst]; [|exact H].
+  destruct (get_cell _ _ _) as [old|]; cbn [fst]; [|exact H].
+  destruct (disjointb _ _); cbn [fst]; [exact H|].
+  destruct (seteqb _ _); cbn [fst].
+  - intros cy o' a Hcy Ho' Ha. cbn [cycles nq] in *. apply (In_update_at _ _ _ []) in Hcy as [->|Hcy]; [|apply (H cy o' a); auto].
+    apply in_map_iff in Ho' as (x & E & Hx). destruct (touches _ x); [subst o'; apply Ho; exact Ha|subst x].
+    destruct (Nat.lt_ge_cases (normZ ci (ncyc c)) (length (cycles c))) as [L|L];
+      [apply (H (nth (normZ ci (ncyc c)) (cycles c) []) o' a); auto; apply nth_In; exact L|].
+    rewrite nth_overflow in Hx by exact L. destruct Hx.
+  - pose proof (remove_op_in_range c (normZ ci (ncyc c)) (normZ qi (nq c)) H) as H1.
+    destruct (remove_op_nq c (normZ ci (ncyc c)) (normZ qi (nq c))) as [Hn Hr].
+    set (c1 := remove_op c _ _) in *.
+    set (c2 := if Nat.eqb _ (ncyc c1) then mkC (nq c1) (rads c1) (cycles c1 ++ [[]]) else c1).
+    assert (H2 : in_range c2).
+    { unfold c2. destruct (Nat.eqb _ _); auto. intros cy o' a Hcy. cbn [cycles nq] in *. apply in_app_or in Hcy as [Hcy|[<-|[]]].
+      - apply (H1 cy o' a Hcy). - intros []. }
+    pose proof (insert_inr c2 (Z.of_nat (normZ ci (ncyc c))) o H2) as H3.
+    destruct (insert c2 _ o) as [c3 [| | | |e]]; exact H3. Qed.
+
+Lemma batch_replace_loop_inr l : forall c cur shift, in_range c -> in_range (fst (batch_replace_loop c cur shift l)).
+Proof. induction l as [|[[i q] o] t IH]; intros c cur shift H; cbn [batch_replace_loop fst]; auto.
+  pose proof (replace_inr c (Z.of_nat (i + (if Nat.eqb i cur then shift else 0)), Z.of_nat q) o H) as H1.
+  destruct (replace c _ o) as [c' [| | | |e]]; cbn [fst] in *; auto. Qed.
+
+Lemma batch_replace_inr c pts ops : in_range c -> in_range (fst (batch_replace c pts ops)).
+Proof. intros H. unfold batch_replace. destruct (negb _); cbn [fst]; auto. destruct (negb _); cbn [fst]; auto.
+  apply batch_replace_loop_inr. exact H. Qed.
+
+Lemma replace_with_circuit_inr c pt sub g : in_range c -> in_range (fst (replace_with_circuit c pt sub g)).
+Proof. intros H. unfold replace_with_circuit. pose proof (pop_inr c (Some pt) H) as H1.
+  destruct (pop c (Some pt)) as [c' [| |old| |e]]; cbn [fst] in *; auto.
+  destruct (negb _); cbn [fst]; auto. destruct (negb _); cbn [fst]; auto. apply insert_circuit_inr. exact H1. Qed.
+
+Lemma unfold_inr c pt : in_range c -> in_range (fst (unfold c pt)).
+Proof. intros H. destruct pt as [ci qi]. unfold unfold. destruct (negb _); cbn [fst]; auto.
+  destruct (get_cell _ _ _); cbn [fst]; auto. destruct (negb _); cbn [fst]; auto. apply replace_with_circuit_inr. exact H. Qed.
+
+Lemma appends_inr n ops : forall s, inr n s -> (forall o, In o ops -> op_ok (fun a => a < n) o) ->
+  inr n (fold_left (fun s o => fst (append_raw s o)) ops s).
+Proof. induction ops as [|o t IH]; intros s H Ho; cbn [fold_left]; auto.
+  apply IH; [apply aq_append_raw; auto; apply Ho; left; reflexivity|intros; apply Ho; right; assumption]. Qed.
+
+Lemma appends_nq ops : forall s, nq (fold_left (fun s o => fst (append_raw s o)) ops s) = nq s.
+Proof. induction ops as [|o t IH]; intros s; cbn [fold_left]; auto. rewrite IH. apply append_raw_nq. Qed.
+
+Lemma compress_inr c : in_range c -> in_range (compress c).
+Proof. intros H. unfold in_range, compress. rewrite appends_nq. cbn [nq]. apply appends_inr.
+  - intros cy o a []. 
+  - intros o Ho a Ha. apply iter_ops_in in Ho as (cy & H1 & H2). apply (H cy o a); auto. Qed.
+
+Lemma aq_map_locs (P Q : nat -> Prop) f cs : (forall a, P a -> Q (f a)) -> all_qudits P cs -> all_qudits Q (map_locs f cs).
+Proof. intros Hf H cy o a Hcy Ho Ha. rewrite map_locs_eq in Hcy. apply in_map_iff in Hcy as (cy0 & <- & Hcy0).
+  apply in_map_iff in Ho as (o0 & <- & Ho0). unfold relab in Ha. rewrite o_loc_set_loc in Ha.
+  apply in_map_iff in Ha as (a0 & <- & Ha0). apply Hf. apply (H cy0 o0 a0); auto. Qed.
+
+Lemma append_qudit_inr c r : in_range c -> in_range (fst (append_qudit c r)).
+Proof. intros H. unfold append_qudit. destruct (Nat.ltb r 2); cbn [fst]; auto.
+  intros cy o a Hcy Ho Ha. cbn [cycles nq] in *. pose proof (H cy o a Hcy Ho Ha). cbn in H0. lia. Qed.
+
+Lemma insert_qudit_inr c qi r : in_range c -> in_range (fst (insert_qudit c qi r)).
+Proof. intros H. unfold insert_qudit. destruct (Nat.ltb r 2) eqn:E; cbn [fst]; auto.
+  destruct (Z.leb _ _); [unfold append_qudit; rewrite E; cbn [fst]; intros cy o a Hcy Ho Ha; cbn [cycles nq] in *; pose proof (H cy o a Hcy Ho Ha) as L; cbn in L; lia|].
+  cbn [fst]. unfold in_range. cbn [nq cycles]. apply (aq_map_locs (fun a => a < nq c)); auto.
+  intros a Ha. unfold shift_up. destruct (Nat.ltb a _); lia. Qed.
+
+Lemma removes_inr n R : forall c, inr n c -> inr n (removes R c).
+Proof. induction R as [|p R IH]; intros c H; cbn; auto. apply IH. apply remove_op_inr. exact H. Qed.
+
+Lemma pop_qudit_inr c qi : Inv c -> in_range c -> in_range (fst (pop_qudit c qi)).
+Proof. intros HI H. unfold pop_qudit. destruct (in_rangeZ qi (nq c)) eqn:Hr; cbn [negb fst]; auto.
+  destruct (Nat.eqb_spec (nq c) 1); cbn [fst]; auto.
+  set (k := normZ qi (nq c)). rewrite pop_qudit_removes.
+  destruct (sdesc_filter_seq (fun i => existsb (touches k) (cycle_at c i)) k (ncyc c)) as [Hs Hb]. fold (pq_reqs c k) in Hs, Hb.
+  assert (Htl : forall q', tl (removes (pq_reqs c k) c) q' = filter (fun o => negb (touches k o)) (tl c q')).
+  { intros q'. rewrite removes_tl; [apply tlc_filt_pq|apply sdesc_desc; exact Hs| |apply sdesc_distinct; exact Hs].
+    unfold named, pq_reqs. apply Forall_forall. intros p Hp. apply in_map_iff in Hp as (i & <- & Hi). cbn [fst snd].
+    apply in_rev in Hi. apply filter_In in Hi as [_ Hi]. apply existsb_exists in Hi. exact Hi. }
+  assert (Hk : all_qudits (fun a => a <> k) (cycles (removes (pq_reqs c k) c))).
+  { apply tlc_no_touch. intros q'. fold (tl (removes (pq_reqs c k) c) q'). rewrite Htl.
+    rewrite filter_filter. apply filter_ext. intros o. destruct (touches k o); reflexivity. }
+  assert (Hrm : inr (nq c) (removes (pq_reqs c k) c)).
+  { apply removes_inr. exact H. }
+  unfold in_range. cbn [nq cycles].
+  apply (aq_map_locs (fun a => a < nq c /\ a <> k)).
+  - intros a [L Ne]. pose proof (normZ_lt _ _ Hr) as Lk. fold k in Lk. unfold shift_down. destruct (Nat.ltb_spec a k); lia.
+  - intros cy o a Hcy Ho Ha. split; [apply (Hrm cy o a)|apply (Hk cy o a)]; auto. Qed.
+
+Lemma renumber_inr c perm : in_range c -> in_range (fst (renumber_qudits c perm)).
+Proof. intros H. unfold renumber_qudits. destruct (Nat.eqb_spec (length perm) (nq c)) as [Hl|]; cbn [negb fst]; auto.
+  destruct (nodupn perm); cbn [negb fst]; auto. destruct (forallb _ perm) eqn:Hb; cbn [negb fst]; auto.
+  unfold in_range. cbn [nq cycles]. apply (aq_map_locs (fun a => a < nq c)); auto.
+  intros a Ha. rewrite forallb_forall in Hb. apply Nat.ltb_lt. apply Hb. apply nth_In. lia. Qed.
+
+Lemma iadd_inr a b : in_range a -> in_range (fst (c_iadd a b)).
+Proof. intros H. unfold c_iadd. pose proof (append_circuit_inr a b (all_loc a) false H) as H1.
+  destruct (append_circuit a b (all_loc a) false) as [s [| | | |e]]; exact H1. Qed.
+
+Lemma rep_append_inr n : forall s a, in_range s -> in_range (rep_append n s a).
+Proof. induction n as [|n IH]; intros s a H; cbn [rep_append]; auto. apply IH. apply append_circuit_inr. exact H. Qed.
+
+Definition no_unfold_all (k : callF) : Prop := match k with FUnfoldAll _ => False | _ => True end.
+
+Theorem do_callF_inr c k : Inv c -> in_range c -> no_unfold_all k -> in_range (do_callF c k).
+Proof. intros HI H Hk. destruct k; cbn [do_callF]; try destruct Hk.
+  - apply append_inr; auto.
+  - apply seq_ops_inr; auto. intros; apply append_inr; assumption.
+  - apply append_circuit_inr; auto.
+  - apply insert_inr; auto.
+  - apply insert_circuit_inr; auto.
+  - apply pop_inr; auto.
+  - apply batch_pop_inr; auto.
+  - apply replace_inr; auto.
+  - apply batch_replace_inr; auto.
+  - apply replace_with_circuit_inr; auto.
+  - apply unfold_inr; auto.
+  - apply compress_inr; auto.
+  - apply append_qudit_inr; auto.
+  - apply insert_qudit_inr; auto.
+  - apply pop_qudit_inr; auto.
+  - apply renumber_inr; auto.
+  - intros cy o a [].
+  - rewrite add_self_unchanged. exact H.
+  - apply iadd_inr; auto.
+  - exact H.
+  - apply rep_append_inr; auto. Qed.
+
+(* every history over the modelled alphabet without unfold_all, from the empty circuit, with ANY
+   arguments: the grid invariant holds and every operation sits on qudits of the circuit *)
+Theorem history_inv_range ks : forall c, Inv c -> in_range c -> Forall no_unfold_all ks ->
+  Inv (fold_left do_callF ks c) /\ in_range (fold_left do_callF ks c).
+Proof. induction ks as [|k t IH]; intros c HI H Hk; cbn [fold_left]; auto. inversion Hk; subst.
+  apply IH; auto.
+  - apply do_callF_inv; auto. destruct k; auto.
+  - apply do_callF_inr; auto. Qed.
+
+Theorem history_inv_range_empty ks n rs : Forall no_unfold_all ks ->
+  Inv (fold_left do_callF ks (mkC n rs [])) /\ in_range (fold_left do_callF ks (mkC n rs [])).
+Proof. intros H. apply history_inv_range; auto. constructor. intros cy o a []. Qed.
